@@ -292,6 +292,11 @@ def main(argv=None):
                 undecided_reasons.append('verus did not complete')
         if len(R) == 0:
             undecided_reasons.append('vacuous: no obligations generated')
+        n_exec = sum(1 for f in info.functions if f['has_body'] and not f['external_body'])
+        if not (tool or res.crashed) and res.verified + res.errors < n_exec:
+            undecided_reasons.append('vacuous run: Verus checked %d items but the crate has %d exec functions' % (res.verified + res.errors, n_exec))
+        if info.invariant_audit and PROPS[prop].get('needs_invariants', True):
+            undecided_reasons.append('invariant audit (assumption A5): ' + '; '.join(info.invariant_audit))
     # anything that makes the deductive argument incomplete voids its verdicts (a failed clause may be an artefact)
     verdicts_valid = deductive_ok and not undecided_reasons
 
